@@ -157,6 +157,7 @@ def run(chk):
                 chk.diverge(dict(sig0, clause="not-repeatable", form="ndarray-plain"), dict(case, first=repr(outs[0])[:200], second=repr(outs[1])[:200]))
     chk.traces += len(cases)
 
+    mixed_types_history(chk)
     events = drive_default(chk, rng, 4000 if thorough else 800)
     for e, clause in defreg.validate(chk, "Trace_C03", events):
         chk.diverge({"clause": clause, "src": "default-registry", "observed": e["res"]["k"]}, {"expr": e["_expr"], "res": e["res"]["k"]})
@@ -165,6 +166,38 @@ def run(chk):
              "ndarray / other-numeric-type form; distinct by (op, a, b); non-trivial = operands in different units (or a "
              "bare number with a unit-bearing quantity); plus random expression trees over the bundled registry validated by Trace_C03",
         exhaustive=True)
+
+
+# ------------------------------------------------------------------------------------------------
+def mixed_types_history(chk):
+    """One float registry used with float, Decimal and Fraction magnitudes on the same unit pairs, in every order of first use:
+    the result of a + b, a - b, a == b, a < b may not depend on which magnitude type asked for that pair of units first
+    (statement: the result depends on the physical values of the operands, not on their units - nor on earlier calls)."""
+    import itertools
+    from decimal import Decimal as D
+    import pint
+    mk = {"float": lambda n, d: n / d, "Decimal": lambda n, d: D(n) / D(d), "Fraction": lambda n, d: F(n, d)}
+    pairs = [("m", "km", 1000), ("s", "ms", F(1, 1000)), ("kg", "g", F(1, 1000))]
+    for order in itertools.permutations(sorted(mk)):
+        ureg = pint.UnitRegistry()
+        Q = ureg.Quantity
+        for (u1, u2, k), first in zip(pairs, order):
+            for ty in [first] + [t for t in order if t != first]:
+                chk.case(("mixed-types", "/".join(order), u1, u2, ty))
+                a, b = Q(mk[ty](3, 2), u1), Q(mk[ty](5, 4), u2)
+                want_sum = F(3, 2) + F(5, 4) * k          # in u1
+                sig = {"clause": "mixed-types-history", "type": ty, "first_type_for_pair": first}
+                try:
+                    got = (a + b, a - b, a == b, a < b, b + a)
+                    vals = (F(str(got[0].m_as(u1))) if ty != "float" else F(got[0].m_as(u1)).limit_denominator(10**9),
+                            F(str(got[1].m_as(u1))) if ty != "float" else F(got[1].m_as(u1)).limit_denominator(10**9))
+                    ok = (vals[0] == want_sum and vals[1] == F(3, 2) - F(5, 4) * k and got[2] is False
+                          and got[3] is (F(3, 2) < F(5, 4) * k) and got[0].units == a.units and got[4].units == b.units)
+                except Exception as e:
+                    chk.diverge(dict(sig, exc=type(e).__name__), {"units": [u1, u2], "order": order, "error": repr(e)[:200]})
+                    continue
+                if not ok:
+                    chk.diverge(sig, {"units": [u1, u2], "order": order, "got": [str(x) for x in got]})
 
 
 # ------------------------------------------------------------------------------------------------
